@@ -193,6 +193,7 @@ def run(ctx, cfg):
             big = pd.DataFrame({c: [0, 0] + list(v) for c, v in data.items()})
             df = big.iloc[range(2, rows + 2)]
         labels = list(df.index)
+        before_cols = list(df.columns)
         try:
             if fn == 'split':
                 feat, samp = du.split_samples_df(df)
@@ -203,6 +204,12 @@ def run(ctx, cfg):
             return
         want_feat = [c for c in data if not c.startswith('sample_')]
         want_samp = [c for c in data if c.startswith('sample_')]
+        if fn == 'drop':
+            # drop_samples_df returns a reduced copy: the table it was given keeps every column and value
+            if not ctx.prove(list(df.columns) == before_cols and list(df.index) == labels, 'input table keeps its columns and rows'):
+                return
+            ctx.prove_all([((cell == data[c][i]) if c.startswith('sample_') else ctx.eq(cell, data[c][i]), 'input table values unaltered')
+                           for c in before_cols for i, cell in enumerate(ctx.tolist(df[c]))])
         obl = [(list(feat.columns) == want_feat, 'feature table holds exactly the non-sample columns'),
                (list(feat.index) == labels, 'feature table keeps the row labels'),
                (samp is None or list(samp.index) == labels, 'sample table keeps the row labels')]
